@@ -267,7 +267,9 @@ func (w *_node) LookupByString(key string) (datamodel.Node, error) {
 			if fval.IsNil() {
 				return datamodel.Null, nil
 			}
-			fval = fval.Elem()
+			if fval.Kind() == reflect.Ptr { // nilable Go types (slices, interfaces) may hold the value directly
+				fval = fval.Elem()
+			}
 		}
 		if _, ok := typ.ValueType().(*schema.TypeAny); ok {
 			if customConverter := w.cfg.converterFor(typ.ValueType().Name(), fval); customConverter != nil {
@@ -355,8 +357,10 @@ func (w *_node) LookupByIndex(idx int64) (datamodel.Node, error) {
 			if val.IsNil() {
 				return datamodel.Null, nil
 			}
-			// nullable elements are assumed to be pointers
-			val = val.Elem()
+			// nullable elements are pointers, or nilable Go types holding the value directly
+			if val.Kind() == reflect.Ptr {
+				val = val.Elem()
+			}
 		}
 		if isAny {
 			// Any always yields a plain datamodel.Node
@@ -1650,7 +1654,9 @@ func (w *_mapIterator) Next() (key, value datamodel.Node, _ error) {
 		if val.IsNil() {
 			return key, datamodel.Null, nil
 		}
-		val = val.Elem() // nullable entries are pointers
+		if val.Kind() == reflect.Ptr { // nullable entries are pointers, or nilable Go types holding the value directly
+			val = val.Elem()
+		}
 	}
 	if isAny {
 		// Values holds datamodel.Nodes
@@ -1682,7 +1688,9 @@ func (w *_listIterator) Next() (index int64, value datamodel.Node, _ error) {
 		if val.IsNil() {
 			return idx, datamodel.Null, nil
 		}
-		val = val.Elem() // nullable values are pointers
+		if val.Kind() == reflect.Ptr { // nullable values are pointers, or nilable Go types holding the value directly
+			val = val.Elem()
+		}
 	}
 	if _, ok := w.schemaType.ValueType().(*schema.TypeAny); ok {
 		if customConverter := w.cfg.converterFor(w.schemaType.ValueType().Name(), val); customConverter != nil {
